@@ -280,6 +280,8 @@ func checkC01(c *Ctx) {
 				}
 			}
 			RequireFactsAtInstr(c, p, "C01.special", fn, inv, "base-inverted", []Req{{"negative-exponent", `^-1 == Int\.Sign\(p1\)$|^Int\.Sign\(p1\) == -1$|^Int\.Sign\(p1\) < 0$`}})
+			ok, msg := scannedExponentIsParameter(fn)
+			c.Ob("C01.special", pk, funcKey(fn), "scanned-exponent-is-the-parameter", p.Pos(fn.Pos()), ok, funcKey(fn)+": "+msg)
 		}
 		if fn := p.Func(pk, "Element", "Sqrt"); fn != nil {
 			hasNil := false
@@ -363,4 +365,111 @@ func checkC01(c *Ctx) {
 		}
 	}
 	c.Assume("exactness of Mul/Add/Inverse/... as functions on integers modulo q, carry boundaries and the assembly are value-level: not decided")
+}
+
+// scannedExponentIsParameter: in a square-and-multiply exponentiation by an arbitrary integer the
+// big.Int whose bits drive the loop (receiver of Bit / Bits) is the exponent parameter itself or a
+// scratch integer that only ever received its negation, absolute value or a copy (Neg/Abs/Set of the
+// parameter). Any other transformation of the exponent (a reduction modulo the group order, a
+// truncation) changes the value for some base — 0^(q-1) is 0, 0^0 is 1.
+func scannedExponentIsParameter(fn *ssa.Function) (bool, string) {
+	var exps []*ssa.Parameter
+	for _, prm := range fn.Params {
+		if pt, ok := prm.Type().(*types.Pointer); ok && namedName(pt.Elem()) == "Int" && namedPkg(pt.Elem()) == "math/big" {
+			exps = append(exps, prm)
+		}
+	}
+	if len(exps) == 0 {
+		return true, ""
+	}
+	scanned := 0
+	for _, b := range fn.Blocks {
+		for _, in := range b.Instrs {
+			call, ok := in.(*ssa.Call)
+			if !ok || call.Call.IsInvoke() {
+				continue
+			}
+			cl := calleeOf(&call.Call)
+			if cl.Pkg != "math/big" || (cl.Name != "Bit" && cl.Name != "Bits") || len(call.Call.Args) == 0 || !inLoopBlock(b) && cl.Name == "Bit" {
+				continue
+			}
+			scanned++
+			// every value that may be the scanned integer
+			seen := map[ssa.Value]bool{}
+			var vals []ssa.Value
+			var walk func(v ssa.Value)
+			walk = func(v ssa.Value) {
+				v = stripConv(v)
+				if v == nil || seen[v] {
+					return
+				}
+				seen[v] = true
+				if ph, ok := v.(*ssa.Phi); ok {
+					for _, e := range ph.Edges {
+						walk(e)
+					}
+					return
+				}
+				vals = append(vals, v)
+			}
+			walk(call.Call.Args[0])
+			for _, v := range vals {
+				isParam := false
+				for _, e := range exps {
+					if v == ssa.Value(e) {
+						isParam = true
+					}
+				}
+				if isParam {
+					continue
+				}
+				// a scratch integer: a fresh local, or one taken from a pool (type assertion of Get)
+				switch x := v.(type) {
+				case *ssa.Alloc:
+				case *ssa.TypeAssert:
+					if c2, _ := callResult(x.X); c2 == nil || calleeOf(&c2.Call).Name != "Get" {
+						return false, "the integer whose bits are scanned is " + descValue(v, 0) + ", neither the exponent parameter nor a scratch copy of it"
+					}
+				case *ssa.Call:
+					if calleeOf(&x.Call).Name != "Get" {
+						// the result of an arithmetic method (order.Mod(e, order)): a transformed exponent
+						return false, "the integer whose bits are scanned is the result of " + descCallee(calleeOf(&x.Call)) + ": the exponent is transformed before it is scanned (only its negation / absolute value may be taken)"
+					}
+				default:
+					return false, "the integer whose bits are scanned is " + descValue(v, 0) + ", neither the exponent parameter nor a scratch copy of it"
+				}
+				// what the scratch integer receives
+				if v.Referrers() == nil {
+					continue
+				}
+				for _, r := range *v.Referrers() {
+					c2, ok := r.(*ssa.Call)
+					if !ok || c2.Call.IsInvoke() || len(c2.Call.Args) == 0 || c2.Call.Args[0] != v {
+						continue
+					}
+					cl2 := calleeOf(&c2.Call)
+					if cl2.Pkg != "math/big" || bigGetter[cl2.Name] {
+						continue
+					}
+					okOp := (cl2.Name == "Neg" || cl2.Name == "Abs" || cl2.Name == "Set") && len(c2.Call.Args) == 2
+					if okOp {
+						fromExp := false
+						for _, e := range exps {
+							if stripConv(c2.Call.Args[1]) == ssa.Value(e) {
+								fromExp = true
+							}
+						}
+						okOp = fromExp
+					}
+					if !okOp {
+						return false, "the scratch integer whose bits are scanned receives Int." + cl2.Name + "(...): the exponent is transformed before it is scanned (only its negation / absolute value may be taken)"
+					}
+				}
+			}
+		}
+	}
+	if scanned == 0 {
+		return true, "" // no bit scan in this function (delegated): nothing to contradict
+	}
+	return true, ""
 }
